@@ -426,8 +426,10 @@ def call_aggfn(ex, fn, args, kwargs, node):
 
     def cell(*idx):
         return F_AGG(z3.Lambda([t], to_z3(x.sel(*idx, t), "real")), to_z3(n, "int"))
-    r = Arr.from_lambda(lead, "real", cell)
-    r.ghost["owner"] = "fresh"
+    # materialised: a fresh array constant with a defining axiom triggered on its own cells (usable as an E-matching pattern)
+    r = Arr.fresh("agg_out", lead, "real", ghost={"owner": "fresh", "corder": True})
+    idx = [z3.Int(fresh_name("a")) for _ in lead]
+    ex.assume(z3.ForAll(idx, r.sel(*idx) == cell(*idx), patterns=[r.sel(*idx)]))
     return r
 
 
